@@ -135,7 +135,10 @@ class Hooks:
     # execution layer
     def pre_execute(self, w, p):
         t = p.package_type.name
-        i, sh = self.sh(w, p.client)
+        # charged to the client the requesting strategy trades through (not to whatever client the package names)
+        owner = p._orders[0].trade.strategy if p._orders else None
+        cl = w.clients[owner.client_idx] if owner is not None and hasattr(owner, "client_idx") else p.client
+        i, sh = self.sh(w, cl)
         live = [o for o in p._orders if L.sname(o.status) != "VIOLATION"]
         sub = 0
         if t == "PLACE":
@@ -190,6 +193,7 @@ def alphabet(limits):
         A.append(L.tick(1000, "Q", [wrap(["C", 0, None])]))
         A.append(L.tick(100, "T22", [wrap(["C", 0, None])]))  # cancel that fails on an open market: the order is matched while it is in flight
         A.append(L.tick(1000, "Q", [wrap(["R", 0, 2.3])]))
+        A.append(L.tick(1000, "Q", [wrap(["R", 1, 2.4])]))  # a further replace of the replacement order
         A.append(L.tick(100, "T22", [wrap(["R", 0, 2.3])]))  # the order is matched while the replace is in flight: nothing is submitted for it
         A.append(L.tick(3600_000, "Q", [wrap(L.P("PBn"))]))
         A.append(L.tick(1000, "Q", [wrap(L.P("XB", force=True))]))
@@ -252,12 +256,12 @@ def _live_job(args):
     n, limit = args[:2]
     kind = args[2] if len(args) > 2 else "CC"
     A = dict(sel=1, side="BACK", price=2.2, size=5.0)
-    last = ["CC", [[0], [1]]] if kind == "CC" else ["RR", [[0, 3.0], [1, 3.2]]]
+    last = ["CC", [[0], [1]]] if kind in ("CC", "CC2") else ["RR", [[0, 3.0], [1, 3.2]]]
     script = [(0, ["P", dict(A, price=round(2.2 + 0.2 * i, 2))]) for i in range(n)] + [(0, last)]
     viol, counts = [], {"clause:C18.a": 0, "live_quiescent": 0, "concurrent_outstanding": 0}
 
     def mk():
-        return livex.LiveWorld(script, budgets=dict(fill=0), transaction_limit=limit, strategy_kw=dict(max_live_trade_count=9), fault_plan={n: {"per": ["FAILURE:ERROR_IN_ORDER", "SUCCESS"]}}).start()
+        return livex.LiveWorld(script, budgets=dict(fill=0), transaction_limit=limit, strategy_kw=dict(max_live_trade_count=9), fault_plan={n: {"per": ["FAILURE:ERROR_IN_ORDER", "FAILURE:ERROR_IN_ORDER" if kind == "CC2" else "SUCCESS"]}}).start()
 
     def chk(w, path):
         if len([t for t in w.pool.tasks if t.state != "done"]) >= 2:
@@ -353,7 +357,7 @@ def run(tier):
         alpha = lambda dt, rich, lim=cfg["limits"]: alphabet(lim)
         c04.explore(rep, {"C18"}, alpha, tier, [cfg], depth_q=3, depth_t=4, dev_k_q=0, dev_k_t=0, horizon=0, run=_run)
     # E2
-    lj = [(2, None), (3, 1), (2, None, "RR")] + ([(3, None), (4, None)] if thorough else [])
+    lj = [(2, None), (3, 1), (2, None, "RR"), (2, None, "CC2")] + ([(3, None), (4, None)] if thorough else [])
     live_results = []
     # E4
     T = lambda c, f=False: (c, f)
